@@ -324,9 +324,14 @@ func genJobs(r *rt.Run) []*Job {
 	// int and float batches alternate inside a task (a field type change between any two batches);
 	// every second task puts them into two groups.
 	const per = 12
-	for _, c := range cfgs {
+	seqs5 := valueSeqs(domain, 5)
+	for ci, c := range cfgs {
 		var bs []Batch
-		for _, vs := range seqs {
+		use := seqs
+		if r.Thorough() && ci < len(defaultCfgs()) {
+			use = seqs5 // thorough: sizes 0..5 for every function with its default options
+		}
+		for _, vs := range use {
 			bs = append(bs, Batch{Pts: mkPts("int", vs)}, Batch{Pts: mkPts("float", vs)})
 		}
 		for ci, ch := range chunks(len(bs), per, 0) {
@@ -611,7 +616,7 @@ func Run(r *rt.Run) error {
 	r.Extra["functions"] = allFns
 	r.Extra["configurations"] = len(defaultCfgs()) + len(optionCfgs())
 	r.Finish("real tasks batch|query().groupBy('g')|fn('x')|log(), stream|from()|window()|log()|fn('x')|log() and stream|from()|fn('x')|log(); "+
-		"one trace = one task. domain: for each of the function/option configurations ALL batches of size 0..L (L=3 quick, 4 thorough) over "+
+		"one trace = one task. domain: for each of the function/option configurations ALL batches of size 0..L (L=3 quick, 4 thorough, 5 for the default options) over "+
 		"{-1,0,2,3} as int and as float, alternating (type change between consecutive batches), one or two groups; typechange: every ordered "+
 		"pair (thorough: triple/quadruple) of uniform batches of kind int/float/string/missing field and the empty batch as windows of a de "+
 		"Bruijn sequence, per function; window: seeded random points through the real window node, its output observed; stream: ALL runs of "+
